@@ -2652,9 +2652,6 @@ BOOST_PP_REPEAT(BOOST_PP_ADD(BOOST_MSM_VISITOR_ARG_SIZE,1), MSM_VISITOR_ARGS_EXE
      void internal_start(Event const& incomingEvent)
      {
          region_start_helper< ::boost::mpl::int_<0> >::do_start(this,incomingEvent);
-         // give a chance to handle an anonymous (eventless) transition
-         handle_eventless_transitions_helper<library_sm> eventless_helper(this,true);
-         eventless_helper.process_completion_event();
      }
 
      template <class StateType>
@@ -2816,6 +2813,11 @@ BOOST_PP_REPEAT(BOOST_PP_ADD(BOOST_MSM_VISITOR_ARG_SIZE,1), MSM_VISITOR_ARGS_EXE
         direct_event_start_helper(this)(incomingEvent,fsm);
         // handle messages which were generated and blocked in the init calls
         m_event_processing = false;
+        // give a chance to handle an anonymous (eventless) transition of the entered states
+        // BEFORE any other event (UML Standard 2.3 15.3.14); deferred and queued events follow below
+        handle_eventless_transitions_helper<library_sm> eventless_helper(this,true);
+        eventless_helper.process_completion_event(
+            static_cast<EventSource>(EVENT_SOURCE_DEFERRED | EVENT_SOURCE_MSG_QUEUE));
         // look for deferred events waiting
         handle_defer_helper<library_sm> defer_helper(m_deferred_events_queue);
         defer_helper.do_handle_deferred(true);
